@@ -341,7 +341,7 @@ def run(ctx):
     n2 = r2(prog, rep)
     r4(ctx)
     import c07
-    c07.r6(ctx, 'C17.R5')      # REJECT mis-detection disables the unmatched-rule warnings: the case tests behind the detection
+    c07.r7_case(ctx, 'C17.R5')      # REJECT mis-detection disables the unmatched-rule warnings: the case tests behind the detection
     rep.setcount('translation_units', len(prog.modules)); rep.setcount('functions_analysed', len(fns(prog)))
     rep.setcount('readers_of_env_nowarn', n1); rep.setcount('rule_useful_instances', n2)
     rep.floor('C17.R1', 2, 'env.nowarn is read in line_warning() and flexend()')
